@@ -301,6 +301,26 @@ theorem handler_query_enum_absent (F : Nat) :
   | 0 | 1 | 2 | 3 | 4 => rfl
   | F + 5 => rfl
 
+/-- **one route with path variables and query parameters**: with a string path variable the whole
+argument inhabits the interface (64-bit query value declared `string`, the same under
+`int64_encoding = NUMBER` declared `number` and converted with `Number`, bool, a present enum) … -/
+theorem handler_path_and_query_inhabits :
+    inhabits (tsEnvAll rqMix) 6 (requestTy mixReq)
+      (handlerArgNoBody mixReq [("tenant".toList, "acme".toList)]
+        [("big_num".toList, "9007199254740993".toList), ("big_plain".toList, "9007199254740993".toList),
+         ("flag_q_param".toList, "true".toList), ("shade_q".toList, "SHADE_DARK".toList)]) = true := by
+  decide
+
+/-- … with a numeric path variable only the path-bound property fails (key
+`handler_arg:path_param:number_vs_string`), the query-bound ones are fine. -/
+theorem handler_path_and_query_path_fails (F : Nat) :
+    inhabits (tsEnvAll rqMix) F (requestTy mixReqN)
+      (handlerArgNoBody mixReqN [("user_id".toList, "7".toList)]
+        [("big_num".toList, "5".toList), ("flag_q_param".toList, "true".toList)]) = false := by
+  match F with
+  | 0 | 1 | 2 => rfl
+  | F + 3 => rfl
+
 /-- a present, valid name is fine. -/
 theorem handler_query_enum_present :
     inhabits (tsEnvAll rqUrl) 6 (requestTy listReq)
